@@ -86,6 +86,23 @@ def build(files, name_bad=None):
         return tree, idents, out.getvalue() + buf.getvalue()
 
 
+def known_tolerated():
+    """KNOWN FINDING C20-reported-not-skipped: files FORD cannot make sense of but does not reject"""
+    out = []
+    for label, text in corruptions():
+        if label not in ("CONTAINS twice", "arbitrary text"):
+            continue
+        files = dict(GOOD)
+        files["src/m_bad.f90"] = text
+        tree, ids, log = build(files)
+        if "m_bad.f90" in tree:
+            out.append({"corruption": label, "reported": "m_bad.f90" in log, "skipped": False})
+    if out:
+        return {"confirmed": True, "input": {"cases": [o["corruption"] for o in out]}, "actual": out, "expected": "reported and skipped",
+                "how": "Project(...) with default settings (dbg on: print_error prints and parsing goes on)"}
+    return None
+
+
 def search():
     try:
         with watchdog(60):
